@@ -1,6 +1,7 @@
 package an
 
 import (
+	"os"
 	"sort"
 	"strings"
 
@@ -281,6 +282,13 @@ func (s *State) heldClasses() []string {
 func (s *State) heldString() string {
 	if len(s.held) == 0 {
 		return "{}"
+	}
+	if os.Getenv("BB_TRACE_FACTS") != "" {
+		var ks []string
+		for _, h := range s.held {
+			ks = append(ks, h.Class+"@"+h.Key)
+		}
+		return "{" + strings.Join(ks, ", ") + "}"
 	}
 	return "{" + strings.Join(s.heldClasses(), ", ") + "}"
 }
